@@ -219,6 +219,9 @@ async def check_extract(ctx, s, resolve, replace):
         if gen[0] == "ok":
             for cer in gen[1][:12]:
                 round_trip(ctx, "content-evaluation-result", ContentEvaluationResultSchema(), cer)
+            # ... and the extract itself once more, now that it has been USED (an object that caches something must still round-trip)
+            ctx.count("extracts_round_tripped_after_use")
+            round_trip(ctx, "categorized-key-extract-after-use", CategorizedKeyExtractSchema(), out[1])
 
 
 def atom_c19(rng):
